@@ -21,6 +21,7 @@ pub enum LT {
     OpFn,           // `fn(f64, f64) -> Value`: an operator closure handed to binary_op_impl
     VmT,            // the abstract interpreter state
     Handler,        // object.rs ExcHandler
+    FiberId,        // a `Gc<RefCell<ObjFiber>>` / `Root<..>` / `*mut ObjFiber`: the number that names the fiber
 }
 
 impl LT {
@@ -50,6 +51,7 @@ impl LT {
             LT::OpFn => "(UInt64 → UInt64 → Rs.M Rs.Value)".into(),
             LT::VmT => "Rs.Vm".into(),
             LT::Handler => "Rs.Handler".into(),
+            LT::FiberId => "Nat".into(),
         }
     }
     fn ity(&self) -> Option<&'static str> {
@@ -571,7 +573,7 @@ impl<'a> Cx<'a> {
 fn vm_place(path: &str) -> Option<(&'static str, LT)> {
     let p = path.replace("active_fiber_mut()", "active_fiber()").replace("current_frame_mut()", "current_frame()");
     // a method of ObjFiber sees its own fields directly
-    let p = if p.starts_with("self.") && !p.starts_with("self.active_") && !p.starts_with("self.ip") && !p.starts_with("self.handling") {
+    let p = if p.starts_with("self.") && !p.starts_with("self.active_") && !p.starts_with("self.ip") && !p.starts_with("self.handling") && p != "self.fiber" && p != "self.unsafe_fiber" {
         format!("self.active_fiber().{}", &p[5..])
     } else {
         p
@@ -589,6 +591,10 @@ fn vm_place(path: &str) -> Option<(&'static str, LT)> {
         "self.active_fiber().error_ip" => Some(("vm_.errorIp", LT::Opt(Box::new(LT::Tup(vec![LT::I("isize"), LT::I("usize")]))))),
         "self.active_fiber().current_frame().unwrap().slot_base" => Some(("vm_.slotBase", LT::I("usize"))),
         "self.active_fiber().current_frame().unwrap().ip" => Some(("vm_.frameIp", LT::I("isize"))),
+        "self.fiber" => Some(("vm_.curId", LT::Opt(Box::new(LT::FiberId)))),
+        "self.unsafe_fiber" => Some(("vm_.unsafeId", LT::Opt(Box::new(LT::FiberId)))),
+        "self.active_fiber().caller" => Some(("vm_.caller", LT::Opt(Box::new(LT::FiberId)))),
+        "self.active_fiber().frames[0].closure" => Some(("vm_.closure0", LT::Value)),
         _ => None,
     }
 }
